@@ -99,10 +99,7 @@ func TestVerif_C06_flow(t *testing.T) {
 				k = 0
 			}
 			if r.Intn(3) == 0 {
-				k = a1 + int64(r.Intn(3)) - 1
-				if k < 0 {
-					k = 0
-				}
+				k = c06Clamp31(a1 + int64(r.Intn(3)) - 1)
 			}
 			f1, f2 := inflow{avail: int32(a1)}, inflow{avail: int32(a2), unsent: 7}
 			ok := takeInflows(&f1, &f2, uint32(k))
@@ -127,10 +124,7 @@ func TestVerif_C06_flow(t *testing.T) {
 				if cn < m {
 					m = cn
 				}
-				k = m + int64(r.Intn(3)) - 1
-				if k < 0 {
-					k = 0
-				}
+				k = c06Clamp31(m + int64(r.Intn(3)) - 1)
 			}
 			hc := r.Intn(4) != 0
 			conn := &outflow{n: int32(cn)}
